@@ -18,6 +18,8 @@ VARIANTS = [
     V("leftover-cols-dropped", M, "    for column in cols:\n        yield None, column\n", "", "R07.3"),
     V("select-on-thresholded-matrix", M, "    matches = _select_matches(cost_matrix)", "    matches = _select_matches(cost_matrix > 0.5)", "R07.2"),
     V("yield-swapped-pair", M, "        yield match1, match2, affinity", "        yield match2, match1, affinity", "R07.5"),
+    V("matrix-float32", M, "cost_matrix = np.zeros(shape=(len(source), len(target)))", "cost_matrix = np.zeros(shape=(len(source), len(target)), dtype=np.float32)", "R07.1"),
+    V("matrix-rounded", M, "    matches = _select_matches(cost_matrix)", "    cost_matrix = cost_matrix.round(3)\n    matches = _select_matches(cost_matrix)", "R07"),
     # neutral
     V("N-sorted-leftovers", M, "    for row in rows:\n        yield row, None\n", "    for row in sorted(rows):\n        yield row, None\n", None),
     V("N-rename", M, "assiged_rows", "assigned_rows", None, occurrence=-1),
@@ -25,4 +27,5 @@ VARIANTS = [
       "        if cost_matrix[row, column] > 0:\n            yield row, column\n            rows.remove(row)\n            cols.remove(column)\n", None),
     V("N-nested-loops", M, "    for (index1, geometry1), (index2, geometry2) in product(\n        enumerate(source), enumerate(target)\n    ):\n        cost_matrix[index1, index2] = compute_affinity(\n            geometry1,\n            geometry2,\n            time_buffer=time_buffer,\n            freq_buffer=freq_buffer,\n        )\n",
       "    for index1, geometry1 in enumerate(source):\n        for index2, geometry2 in enumerate(target):\n            cost_matrix[index1, index2] = compute_affinity(\n                geometry1,\n                geometry2,\n                time_buffer=time_buffer,\n                freq_buffer=freq_buffer,\n            )\n", None),
+    V("N-matrix-dtype-float", M, "cost_matrix = np.zeros(shape=(len(source), len(target)))", "cost_matrix = np.zeros(shape=(len(source), len(target)), dtype=float)", None),
 ]
